@@ -165,11 +165,21 @@ def run_shard(shard):
                     return [{"kind": "key-value", "signature": f"key-value:{str(k[0] if isinstance(k, tuple) else k).rsplit('-', 1)[0]}", "detail": f"graph key {k} carries a different block value here than in program [{old[1]}]"}]
         return []
 
+    def monitor_with_history(ctx):
+        fails = monitor(ctx)
+        for f in fails:
+            # the failure depends on everything built before it in this
+            # process: the replayable case is the whole shard up to here
+            f["case"] = dict(ctx.case, perm=perm, all_sources=shard["sources"], depth=shard["depth"], want_signature=f["signature"])
+        return fails
+
     for src in shard["sources"]:
         for first in names:
             sh = {"source": src, "first": first, "ops": names, "depth": shard["depth"], "binary": True}
-            ex = E.Explorer(sh, monitor, out)
+            ex = E.Explorer(sh, monitor_with_history, out)
             ex.run()
+            if shard.get("stop_at") and any(f["signature"] == shard["stop_at"] for f in out.failures):
+                return out.result()
     out.count("constructions", _LOG.constructions)
     out.count("constructor_candidates", len(_LOG.candidates))
     for c in _LOG.candidates[:5]:
@@ -198,11 +208,9 @@ def replay(case):
     """Replays the failing program in a fresh process together with its
     whole shard prefix is not possible from the case alone; the case records
     the permutation and source so the shard is re-run up to the failure."""
-    out = ShardOut()
-    sh = {"perm": case.get("perm", 0), "sources": [case["source"]], "depth": len(case["steps"]), "tier": "quick"}
+    sh = {"perm": case.get("perm", 0), "sources": case.get("all_sources", [case["source"]]), "depth": case.get("depth", 2), "tier": "quick", "stop_at": case.get("want_signature")}
     res = run_shard(sh)
-    want = E.op_path(case)
     for f in res["failures"]:
-        if E.op_path(f["case"]) == want or True:
+        if f["signature"] == case.get("want_signature"):
             return f
-    return None
+    return res["failures"][0] if res["failures"] and not case.get("want_signature") else None
